@@ -212,11 +212,10 @@ func (e *Engine) findDFA(haystack []byte) *Match {
 	// This is O(m) where m = match length, not O(n)
 	// For patterns without prefilter, estimate start position
 	// and search from there
+	// The match may be longer than any fixed window, so the leftmost match is
+	// searched from the beginning (a window of 100 bytes before the match end
+	// reported a late start for longer matches).
 	estimatedStart := 0
-	if endPos > 100 {
-		// For long haystacks, start search closer to the match end
-		estimatedStart = endPos - 100
-	}
 	start, end, matched := e.pikeSearchAt(haystack, estimatedStart)
 	if !matched {
 		return nil
@@ -275,9 +274,9 @@ func (e *Engine) findAdaptive(haystack []byte) *Match {
 			// DFA succeeded - get exact match bounds from NFA
 			// Use estimated start position for O(m) search instead of O(n)
 			estimatedStart := 0
-			if endPos > 100 {
-				estimatedStart = endPos - 100
-			}
+			// The match may be longer than any fixed window: the leftmost match can
+			// start anywhere from the search offset, so search from there (a window
+			// of 100 bytes before the match end reported a late start for longer matches).
 			start, end, matched := e.pikeSearchAt(haystack, estimatedStart)
 			if !matched {
 				return nil
